@@ -34,45 +34,47 @@ type OnReturn struct {
 }
 
 type Contract struct {
-	Kind     string // func | extern | field | iface
-	Target   string
-	Key      string // Type.Method or Func
-	PkgName  string
-	PkgPath  string
-	Props    []string
-	Params   []string
-	Results  []string
-	Recv     string
-	Requires []Clause
-	Ensures  []Clause
-	Modifies []ast.Expr
-	HasMod   bool // a modifies clause is present (possibly "modifies nothing")
-	Allocs   bool // the function may allocate objects visible to the caller
-	AllocT   []string // ... of these kinds (struct short names, "map", "chan", "cell")
-	SpawnMod []ast.Expr // what goroutines started by this function may modify (default: nothing)
-	Observe  map[string]string // obligation-name suffix -> why a failure of it is outside the property (reported, not alarmed)
-	Devirt   map[string]string
-	Dispatch map[string][]string // closed-world dispatch: interface name -> the implementing types considered
-	ModText  []string
-	LoopInvs map[int][]Clause
-	LoopMods map[int][]ast.Expr // loop N modifies ...: what one iteration may change on the heap (default: syntactic effects)
+	Kind       string // func | extern | field | iface
+	Target     string
+	Key        string // Type.Method or Func
+	PkgName    string
+	PkgPath    string
+	Props      []string
+	Params     []string
+	Results    []string
+	Recv       string
+	Requires   []Clause
+	Ensures    []Clause
+	Modifies   []ast.Expr
+	HasMod     bool              // a modifies clause is present (possibly "modifies nothing")
+	Allocs     bool              // the function may allocate objects visible to the caller
+	AllocT     []string          // ... of these kinds (struct short names, "map", "chan", "cell")
+	SpawnMod   []ast.Expr        // what goroutines started by this function may modify (default: nothing)
+	Observe    map[string]string // obligation-name suffix -> why a failure of it is outside the property (reported, not alarmed)
+	Devirt     map[string]string
+	Dispatch   map[string][]string // closed-world dispatch: interface name -> the implementing types considered
+	ModText    []string
+	LoopInvs   map[int][]Clause
+	LoopHints  map[int][]Clause
+	LoopDo     map[int][]GhostAssign
+	LoopMods   map[int][]ast.Expr       // loop N modifies ...: what one iteration may change on the heap (default: syntactic effects)
 	OnCall     map[string][]GhostAssign // "<callee name>:<ordinal>:before|after" -> ghost assignments at that call site
-	SelAsserts map[string][]Clause // "N:default" / "N:K" -> assertions at the start of that branch of the N-th select statement
-	OnRet    []OnReturn
-	OnEntry  []GhostAssign
-	Inst     map[string]string
-	SMTStr   bool
-	Inline   bool
-	Mode     string // seq | conc | both
-	Decr     *Clause
-	NoSafety bool
-	Safety   map[string]bool
-	File     string
-	Line     int
-	Trusted  bool
-	Pure     bool
-	Assumes  []string // free-text assumptions carried into the evidence
-	Replay   string
+	SelAsserts map[string][]Clause      // "N:default" / "N:K" -> assertions at the start of that branch of the N-th select statement
+	OnRet      []OnReturn
+	OnEntry    []GhostAssign
+	Inst       map[string]string
+	SMTStr     bool
+	Inline     bool
+	Mode       string // seq | conc | both
+	Decr       *Clause
+	NoSafety   bool
+	Safety     map[string]bool
+	File       string
+	Line       int
+	Trusted    bool
+	Pure       bool
+	Assumes    []string // free-text assumptions carried into the evidence
+	Replay     string
 }
 
 type GhostField struct {
@@ -133,16 +135,16 @@ type Axiom struct {
 
 type ContractFile struct {
 	PkgPath, PkgName, File string
-	Contracts             []*Contract
-	GhostFields           []*GhostField
-	GhostVars             []*GhostVar
-	GhostFuncs            []*GhostFunc
-	Monitors              []*Monitor
-	Lemmas                []*Lemma
-	Axioms                []*Axiom
-	Dropped               []string
-	Pure                  []string
-	Devirt                map[string]string
+	Contracts              []*Contract
+	GhostFields            []*GhostField
+	GhostVars              []*GhostVar
+	GhostFuncs             []*GhostFunc
+	Monitors               []*Monitor
+	Lemmas                 []*Lemma
+	Axioms                 []*Axiom
+	Dropped                []string
+	Pure                   []string
+	Devirt                 map[string]string
 }
 
 var labelRe = regexp.MustCompile(`^\[([^\]]+)\]\s*`)
@@ -597,6 +599,31 @@ func parseContractFile(path, pkgPath, pkgName string) (*ContractFile, error) {
 						}
 						cur.LoopMods[n] = append(cur.LoopMods[n], e)
 					}
+					continue
+				}
+				if strings.HasPrefix(r2, "do ") {
+					// loop N do g = e; ...: ghost updates at the end of every iteration (witness bookkeeping)
+					as, err := parseAssigns(strings.TrimSpace(r2[3:]), path, rl.line)
+					if err != nil {
+						return nil, err
+					}
+					if cur.LoopDo == nil {
+						cur.LoopDo = map[int][]GhostAssign{}
+					}
+					cur.LoopDo[n] = append(cur.LoopDo[n], as...)
+					continue
+				}
+				if strings.HasPrefix(r2, "hint") {
+					// loop N hint[label] e: asserted (and then assumed) at the end of every iteration, before the
+					// invariant is re-established: an intermediate fact that gives the solver its witness terms
+					c, err := mkClause(strings.TrimSpace(r2[len("hint"):]), rl.line)
+					if err != nil {
+						return nil, err
+					}
+					if cur.LoopHints == nil {
+						cur.LoopHints = map[int][]Clause{}
+					}
+					cur.LoopHints[n] = append(cur.LoopHints[n], c)
 					continue
 				}
 				if !strings.HasPrefix(r2, "invariant") {
